@@ -129,3 +129,64 @@ package server
 //@   at call Sign#1: assert signs-only-with-a-certificate-a-supported-hash-and-an-exact-length-digest: gerr == nil && callarg1 == req.Digest && ((req.Algo == protocol.KeylessSignRequest_SHA256 && len(req.Digest) == 32) || (req.Algo == protocol.KeylessSignRequest_SHA384 && len(req.Digest) == 48) || (req.Algo == protocol.KeylessSignRequest_SHA512 && len(req.Digest) == 64))
 //@   at call Sign#1: ghost signed := true
 //@   ensures local-success-means-signed: err == nil ==> signed
+
+// ---- C25: every tunnel / keyless RPC except Ping and RegisterIdentity needs a verified certificate whose
+// token is registered; a refused call issues no mutating KV request.
+//@ func extractAuthenticated(ctx context.Context) (tok *protocol.ClientToken, node *protocol.Node, err error)
+//@   safety off
+//@   opt frame=off
+//@   ghost d *transport.StreamDelegate = nil
+//@   ghost looked bool = false
+//@   ghost ierr error = nil
+//@   ghost id *pki.Identity = nil
+//@   at after call GetDelegation#1: ghost d := callresult
+//@   at call ExtractCertificateIdentity#1: assert identity-comes-from-the-verified-certificate: d != nil && d.Certificate != nil && callarg0 == d.Certificate
+//@   at after call ExtractCertificateIdentity#1: ghost ierr := callresult1
+//@   at after call ExtractCertificateIdentity#1: ghost id := callresult0
+//@   at after call ExtractCertificateIdentity#1: ghost looked := true
+//@   ensures local-no-certificate-no-identity: (d == nil || d.Certificate == nil || ierr != nil) ==> (err != nil && tok == nil && node == nil)
+//@   ensures local-identity-is-the-certificates: err == nil ==> (looked && ierr == nil && tok != nil && fresh(tok) && tok.Token == id.Token)
+//@   ensures refused-has-no-identity: err != nil ==> (tok == nil && node == nil)
+//@   ensures success-has-a-token: err == nil ==> tok != nil
+
+//@ func (s *Server) getClientByToken(ctx context.Context, token *protocol.ClientToken) (cli *protocol.Node, err error)
+//@   safety off
+//@   opt frame=off
+//@   requires s.Chord != nil
+//@   ghost gerr error = nil
+//@   ghost n int = -1
+//@   at after call Get#1: ghost gerr := callresult1
+//@   at after call Get#1: ghost n := len(callresult0)
+//@   ensures local-an-empty-or-unreadable-registration-is-no-registration: (gerr != nil || n == 0) ==> (err != nil && cli == nil)
+//@   ensures read-only: s.Chord.kvWrites == old(s.Chord.kvWrites)
+//@   ensures refused-has-no-client: err != nil ==> cli == nil
+
+//@ func (s *Server) saveClientToken(ctx context.Context, token *protocol.ClientToken, client *protocol.Node) (err error)
+//@   safety off
+//@   opt frame=off
+//@   requires s.Chord != nil
+//@   ensures at-most-one-write: s.Chord.kvWrites == old(s.Chord.kvWrites) || s.Chord.kvWrites == old(s.Chord.kvWrites) + 1
+
+//@ func (s *Server) verifyClientIdentity(ctx context.Context) (rctx context.Context, rerr error)
+//@   safety off
+//@   opt frame=off
+//@   requires s.Chord != nil
+//@   ghost method string = ""
+//@   ghost d *transport.StreamDelegate = nil
+//@   ghost aerr error = nil
+//@   ghost gerr error = nil
+//@   ghost authed bool = false
+//@   ghost looked bool = false
+//@   at after call MethodName#1: ghost method := callresult0
+//@   at after call GetDelegation#1: ghost d := callresult
+//@   at after call extractAuthenticated#1: ghost aerr := callresult2
+//@   at after call extractAuthenticated#1: ghost authed := true
+//@   at call getClientByToken#1: assert registration-is-looked-up-for-the-certificates-token: authed && aerr == nil && callarg2 == token
+//@   at after call getClientByToken#1: ghost gerr := callresult1
+//@   at after call getClientByToken#1: ghost looked := true
+//@   at call saveClientToken#1: assert token-is-rewritten-only-for-a-registered-verified-client: looked && gerr == nil && aerr == nil && callarg2 == token && callarg3 == verifiedClient
+//@   ensures local-no-delegation-is-refused: d == nil ==> rerr != nil
+//@   ensures local-only-ping-and-registration-are-exempt: (rerr == nil && method != "Ping" && method != "RegisterIdentity") ==> (authed && aerr == nil && looked && gerr == nil)
+//@   ensures local-unverified-or-unregistered-caller-is-refused: (d != nil && method != "Ping" && method != "RegisterIdentity" && (aerr != nil || gerr != nil)) ==> rerr != nil
+//@   ensures a-refused-call-changes-nothing-in-the-dht: rerr != nil ==> s.Chord.kvWrites == old(s.Chord.kvWrites)
+//@   ensures exempt-methods-change-nothing: (method == "Ping" || method == "RegisterIdentity") ==> s.Chord.kvWrites == old(s.Chord.kvWrites)
